@@ -298,7 +298,7 @@ def corpus(chk, tier):
              "source text up to whitespace with lifetimes as 'static, variant names and indices (codec index > discriminant > position among non-skipped), "
              "docs per capture_docs with one leading space removed")
     mirp, srcp = facts.ensure_fixture_facts()
-    d = json.load(open(mirp))
+    d = facts.load_json_canonical(mirp)
     d["_config"] = "fixtures"
     prog = mir.Program(d)
     sf = S.Src(json.load(open(srcp)))
